@@ -832,7 +832,9 @@ func (vm *vm) handleThrow(arg interface{}) *Exception {
 	ex := vm.exceptionFromValue(arg)
 	for len(vm.tryStack) > 0 {
 		tf := &vm.tryStack[len(vm.tryStack)-1]
-		if tf.catchPos == -1 && tf.finallyPos == -1 || ex == nil && (tf.catchPos != tryPanicMarker || tf.finallyRet == -2) {
+		// a frame whose finally block is being executed by a generator's return() (turned into a marker in place,
+		// see generator.enterNextFinallyFrame) is abandoned by a throw like any other executing finally block
+		if tf.catchPos == -1 && tf.finallyPos == -1 || tf.catchPos == tryPanicMarker && tf.finallyRet == -2 || ex == nil && tf.catchPos != tryPanicMarker {
 			tf.exception = nil
 			vm.popTryFrame()
 			continue
